@@ -358,8 +358,9 @@ def match_known(pid, failure, known):
 def run_check(pid, tier, seed):
     t_start = time.time()
     prop = load_prop(pid)
-    os.makedirs(os.path.join(VERIF, 'evidence'), exist_ok=True)
-    evidence_path = os.path.join(VERIF, 'evidence', '%s.json' % pid)
+    ev_dir = os.environ.get('VERIF_EVIDENCE_DIR') or os.path.join(VERIF, 'evidence')    # (the mutation self-test redirects it)
+    os.makedirs(ev_dir, exist_ok=True)
+    evidence_path = os.path.join(ev_dir, '%s.json' % pid)
     violations = []      # (replay_path, suffix)
     notes = []
     known_hits = []
